@@ -247,6 +247,36 @@ theorem sent_determined (cfg : Nat) (hist : List Msg) (sched : List Act) (s : St
   have := this sched (St.init cfg hist) s (by simp [St.init]) h
   omega
 
+/-! ### stopping (recorded finding `stop-sendqueue-full`)
+
+`Client.Stop` sends Done through the same bounded send queue (capacity 80) that
+holds the pipelined RequestNext messages the engine has not yet put on the wire
+(at least one request is on the wire whenever any is outstanding). -/
+
+/-- full clause: whenever the client is stopped, Done finds room in the send queue -/
+def C21_stop_full : Prop :=
+  ∀ cfg, cfg ≤ 100 → ∀ (hist : List Msg) (sched : List Act) (s : St),
+    run (St.init cfg hist) sched = some s → doneFits (s.outstanding - 1) = true
+
+/-- the part that holds: for every effective limit up to the queue capacity -/
+theorem stop_fits_partial (cfg : Nat) (hcfg : effLimit cfg ≤ sendQueueCap) (hist : List Msg)
+    (sched : List Act) (s : St) (h : run (St.init cfg hist) sched = some s) :
+    doneFits (s.outstanding - 1) = true := by
+  have h1 := outstanding_le_limit cfg hist sched s h
+  have h2 := effLimit_pos cfg
+  unfold doneFits sendQueueCap at *
+  simp only [decide_eq_true_eq]
+  omega
+
+/-- the witness: limit 100, one reply consumed → 101 requests issued, 1 answered,
+    20 on the wire, 80 in the queue: the queue is full and `Stop` blocks
+    (replayed on the real code: `sync ntc 100 0 0 2 FF` → stop=HANG) -/
+theorem stop_blocks_witness : ¬ C21_stop_full := by
+  intro h
+  have := h 100 (by decide) [⟨0, false⟩] [.deliver, .loop] _ rfl
+  revert this
+  decide
+
 /-- closed form used by the harness for pacing: requests issued after j ≥ 1 replies
     with limit 3 are 4, 4, 4, 7, 7, 7, 10 … (checked on an initial segment) -/
 example : (List.range 8).map (fun j => (loopState 3 j).1) = [1, 4, 4, 4, 7, 7, 7, 10] := by decide
